@@ -158,9 +158,9 @@ WAVE3 = {
     "C10": " The exception table is interpreted (determineException and EncodedCatchHandler executed): every try start, typed handler address and catch-all address must be a leader, incl. two try ranges sharing one handler list. Concrete-label scenarios with targets inside an instruction or before offset 0.",
     "C11": " bisect-based block lookup is interpreted; a branch target before the first block must have no successor block.",
     "C12": " handler-pairing: try items must report the handlers of the entry their handler_off refers to even when an earlier entry uses padded LEB128; a handler address inside an instruction must resolve to the containing block. Catch-all handler at code address 0 (None vs 0).",
-    "C13": " Scenario families added: rank-2 array receivers, code inside interface classes. Directly recursive invokes.",
-    "C14": " The real DEX.get_encoded_field_descriptor is executed on the model DEX (same-named fields of different type); a class with fields but no methods; truthiness through __len__/__bool__. Two accessor methods with identical code (same field, same offsets).",
-    "C15": " Raw vs hooked string lookup (rename hooks) is modelled; a const-string whose string id carries a hook.",
+    "C13": " Scenario families added: rank-2 array receivers, code inside interface classes. Directly recursive invokes. memo-coherence (agstatic/memo.py): a getter-reachable instance memo built as a copy of a record container must be dropped by every method that mutates that container (sequence getter; recorder; getter).",
+    "C14": " The real DEX.get_encoded_field_descriptor is executed on the model DEX (same-named fields of different type); a class with fields but no methods; truthiness through __len__/__bool__. Two accessor methods with identical code (same field, same offsets). memo-coherence (agstatic/memo.py): a getter-reachable instance memo built as a copy of a record container must be dropped by every method that mutates that container (sequence getter; recorder; getter).",
+    "C15": " Raw vs hooked string lookup (rename hooks) is modelled; a const-string whose string id carries a hook. memo-coherence (agstatic/memo.py): a getter-reachable instance memo built as a copy of a record container must be dropped by every method that mutates that container (sequence getter; recorder; getter).",
     "C16": " String tables per DEX and header items are modelled (equal SHA-1 fields are legal input).",
     "C17": " rename-scenario: set_name executed end to end on a miniature ClassManager under four histories; aliasing-exposure separates eager re-resolution from lazy invalidation. Two ClassManagers in one simulated process (class-level tables shared).",
     "C21": " Register operands carry the type the mnemonic fixes; new rule java-lexing (the printed text must lex into the tokens of its pieces by Java's longest-match rule); propagated constants also for unary ops.",
@@ -169,7 +169,7 @@ WAVE3 = {
     "C25": " node-map: after every pass each node_map value must be a live node of the graph.",
     "C29": " Tables whose back edge is taken more than once; the resources object is the repository's own ARSCParser over the abstract table (members without default-locale entry). history-independent: after resolve(start) every other id is resolved on the same parser and must still return all reachable values.",
     "C32": " find_certificate is interpreted on a symbolic certificate bag: a returned certificate must have compared equal to the sid in issuer and serial on that path.",
-    "C33": " repeated-access: every accessor called again after the first parse must answer the same and store every pair once.",
+    "C33": " repeated-access: every accessor called again after the first parse must answer the same and store every pair once. Digest and signature items carry bytes after the length-prefixed data in some signers (the item's own length prefix is the framing).",
     "C34": " get_file is run after another entry with equal metadata was read (keyed instance caches); dict-built listings are checked for key collisions on names enumerated from the selected language.",
     "C35": " A read result compared with an empty literal (iter(callable, sentinel), ==, !=) needs the literal's type to match what read() returns on that stream.",
     "C36": " key-reuse: no delete on the session table on the creation path (SQLite reuses a freed rowid).",
